@@ -1,5 +1,6 @@
 import Jrpc.TransDefs
-import JrpcProofs.Trans.Frames
+import Jrpc.TransDefs
+import JrpcProofs.Trans.Lemmas
 import JrpcProofs.Facts.Interp
 /-
   Translated `handleFrame` (websocket.go): for every method string, which function the switch calls.
